@@ -97,14 +97,21 @@ def _eq_arr(G, name, got, want_fn, shape, prem):
         G.add(f"{name}{list(idx)}", prem, S.close(got[idx], want_fn(idx), z3.RealVal("1/1000000000"), z3.RealVal("1/1000000000")), {})
 
 
-def save_units(fmt: str = "dcd", cell: bool = True, triclinic: bool = False):
+def save_units(fmt: str = "dcd", cell: bool = True, triclinic: bool = False, angles: str = ""):
+    """angles: '' (80/100/70 when triclinic), or a cell with SOME right angles: 'hex' 90/90/120, 'mono' 90/100/90, 'mono_a' 75/90/90,
+    'frame1' (frame 0 orthorhombic, frame 1 hexagonal)"""
     t0 = time.time()
     S.new_ctx(timeout_ms=30000)
     S.CTX.snap_tol = 1e-6
     _uc.np = NP()
     F, N = 2, 2
     ang = (80.0, 100.0, 70.0) if triclinic else (90.0, 90.0, 90.0)
+    if angles:
+        ang = {"hex": (90.0, 90.0, 120.0), "mono": (90.0, 100.0, 90.0), "mono_a": (75.0, 90.0, 90.0), "frame1": (90.0, 90.0, 120.0)}[angles]
+        triclinic = True
     t = _traj(F, N, cell, ang)
+    if angles == "frame1":
+        t._unitcell_angles[0] = [90.0, 90.0, 90.0]
     real = getattr(_tr, CLASS_OF[fmt])
     Rec, calls = _recorder(real)
     setattr(_tr, CLASS_OF[fmt], Rec)
